@@ -151,6 +151,7 @@ def main(tier):
             c = {"id": "p%d" % i, "units": [src], "timeout_ms": 60000}
             c.update(opts)
             cases.append(c)
+        cases_by_id = {c["id"]: c for c in cases}
         results, meta = core.run_cases(cases, env=env, tag="c03")
         for i, (kind, pats, src, ref) in enumerate(progs):
             res = results.get("p%d" % i)
@@ -160,7 +161,17 @@ def main(tier):
             uniq_total += (res.get("counters") or {}).get("GET_MUT_UNIQUE", 0)
             exp = c01.expected(ref)
             replay = {"config": env, "opts": opts, "src": src, "expected": list(exp)}
+            if res["status"] == "timeout":
+                again = core.retry_alone(cases_by_id["p" + str(i)], env=env, tag="c03r")
+                if again is not None and again["status"] == "ok":
+                    rep.inconclusive_note("a time-out in the loaded batch was not reproduced alone (" + cname + ")")
+                    res = again
             if res["status"] != "ok":
+                if res["status"] == "timeout" and "spawn-native-thread" in src:
+                    # a program with a native thread that does not finish is C16's finding (threads + allocation
+                    # hang on the unchanged tree, C16-F01); it says nothing about persistence
+                    rep.inconclusive_note("thread program did not finish (%s) - left to C16" % cname)
+                    continue
                 rep.violation("C03 %s: engine process %s" % (kind, res["status"]), "config=%s\n%s" % (cname, src[:800]), replay)
                 continue
             u = res["units"][0]
